@@ -40,7 +40,8 @@ FV0 == [site |-> "none", cls |-> "plain", ids |-> FALSE, prefix |-> NoneS, exp |
         nmaps |-> 1, mapIds |-> FALSE, connId |-> FALSE, pairs |-> 1, reset |-> "none", imports |-> "none", twin |-> FALSE,
         mathNs |-> "decl"]   \* "bare": math written without the xmlns:cellml declaration (not varied: used by C14's expectation)
 Dims == [site |-> Sites, cls |-> Classes, ids |-> BOOLEAN, prefix |-> {NoneS, "milli", "3", "-2"}, exp |-> {"1", "2", "-1", "0.5", "0.3333333333333333"},
-         mult |-> {"1", "1000", "0.001", "2.5", "0.30000000000000004", "123456789.12345679", "1e-05", "-6.02214076e+23"},   \* incl. reals that need 16 / 17 significant digits depth |-> 1..3, nmaps |-> 0..3, mapIds |-> BOOLEAN, connId |-> BOOLEAN, pairs |-> 1..3,
+         mult |-> {"1", "1000", "0.001", "2.5", "0.30000000000000004", "123456789.12345679", "1e-05", "-6.02214076e+23"},   \* incl. reals that need 16 / 17 significant digits
+         depth |-> 1..3, nmaps |-> 0..3, mapIds |-> BOOLEAN, connId |-> BOOLEAN, pairs |-> 1..3,
          reset |-> {"none", "ordered", "unordered", "two"}, imports |-> {"none", "units", "comp", "both", "twoSources"},
          twin |-> BOOLEAN]   \* a top-level component that is a structural look-alike of the nested c3 (same name: not a valid model)
 DimNames == DOMAIN Dims
@@ -108,7 +109,9 @@ ConnsOf(fv) ==
     \* pairs = 3 closes a cycle of equivalences: c1.x - d1.x, c1.x - c2.x, c2.x - d1.x
     \o (IF fv.pairs = 3 /\ fv.depth >= 2 /\ fv.nmaps >= 1 THEN <<Ordered(C1(fv), "c2", fv, 1, "b"), Ordered("c2", "d1", fv, 1, "c")>> ELSE <<>>)
     \o (IF fv.imports \in {"comp", "both", "twoSources"} /\ fv.nmaps >= 1
-        THEN <<[c1 |-> "d1", c2 |-> "ic", id |-> NoneS, maps |-> <<[v1 |-> "y", v2 |-> "p", id |-> NoneS]>>]>> ELSE <<>>)
+        \* the placeholder variable p of the imported component is the partner of two variables (two connections name it)
+        THEN <<[c1 |-> "d1", c2 |-> "ic", id |-> NoneS, maps |-> <<[v1 |-> "y", v2 |-> "p", id |-> NoneS]>>],
+               [c1 |-> C1(fv), c2 |-> "ic", id |-> NoneS, maps |-> <<[v1 |-> "y", v2 |-> "p", id |-> NoneS]>>]>> ELSE <<>>)
 ImportsOf(fv) ==
     (IF fv.imports \in {"units", "comp", "both", "twoSources"} THEN {[url |-> St("lib.cellml", "href", fv), id |-> Id("imp1", "importId", fv)]} ELSE {})
     \cup (IF fv.imports = "twoSources" THEN {[url |-> "other.cellml", id |-> Id("imp2", "importId2", fv)]} ELSE {})
@@ -118,13 +121,15 @@ ModelOf(fv) ==
 
 \* ------------------------------------------------------------------ comparison up to child order
 SR(s) == {s[i] : i \in DOMAIN s}
-NormUnits(u) == [u EXCEPT !.kids = SR(@)]
-NormComp(c) == [c EXCEPT !.vars = SR(@), !.resets = SR(@)]
-NormConn(c) == [c EXCEPT !.maps = SR(@)]
+\* children are compared as bags: order is insignificant, multiplicity is not (a duplicated variable is a difference)
+Bag(s) == [x \in SR(s) |-> Cardinality({i \in DOMAIN s : s[i] = x})]
+NormUnits(u) == [u EXCEPT !.kids = Bag(@)]
+NormComp(c) == [c EXCEPT !.vars = Bag(@), !.resets = Bag(@)]
+NormConn(c) == [c EXCEPT !.maps = Bag(@)]
 Norm(m) == [name |-> m.name, id |-> m.id, encId |-> m.encId,
-            units |-> {NormUnits(m.units[i]) : i \in DOMAIN m.units},
-            comps |-> {NormComp(m.comps[i]) : i \in DOMAIN m.comps},
-            conns |-> {NormConn(m.conns[i]) : i \in DOMAIN m.conns}]
+            units |-> Bag([i \in DOMAIN m.units |-> NormUnits(m.units[i])]),
+            comps |-> Bag([i \in DOMAIN m.comps |-> NormComp(m.comps[i])]),
+            conns |-> Bag([i \in DOMAIN m.conns |-> NormConn(m.conns[i])])]
 SameCounts(a, b) == Len(a.units) = Len(b.units) /\ Len(a.comps) = Len(b.comps) /\ Len(a.conns) = Len(b.conns)
 SameContent(a, b) == SameCounts(a, b) /\ Norm(a) = Norm(b)
 =============================================================================
